@@ -384,7 +384,119 @@ class LoopNest(ast.NodeTransformer):
     visit_While = _loop
 
 
-TRANSFORMS = {"eqswap": EqSwap, "cmpflip": CmpFlip, "ifinvert": IfInvert, "notcmp": NotCmp, "augexpand": AugExpand, "annotate": Annotate, "fstring": FString, "methodorder": MethodOrder, "isimerge": IsinstanceMerge, "unelse": UnElse, "elseafter": ElseAfterReturn, "comp2loop": CompToLoop, "loopguard": LoopGuard, "loopnest": LoopNest,
+def _is_boolean(e):
+    if isinstance(e, ast.Compare):
+        return True
+    if isinstance(e, ast.UnaryOp) and isinstance(e.op, ast.Not):
+        return True
+    if isinstance(e, ast.BoolOp):
+        return all(_is_boolean(v) for v in e.values)
+    if isinstance(e, ast.Call) and isinstance(e.func, ast.Name) and e.func.id in ("isinstance", "bool", "any", "all", "callable", "hasattr"):
+        return True
+    if isinstance(e, ast.Constant) and isinstance(e.value, bool):
+        return True
+    return False
+
+
+class BoolReturn(ast.NodeTransformer):
+    """pylint R1703 / ruff SIM103: `if c: return True` followed by `return False` (or with else) -> `return c`
+    (c syntactically boolean); `if c: return False` + `return True` -> `return not c`."""
+
+    def _fix(self, stmts):
+        out, i = [], 0
+        while i < len(stmts):
+            st = stmts[i]
+            nxt = stmts[i + 1] if i + 1 < len(stmts) else None
+            cand = None
+            if isinstance(st, ast.If) and len(st.body) == 1 and isinstance(st.body[0], ast.Return) and isinstance(st.body[0].value, ast.Constant) \
+                    and isinstance(st.body[0].value.value, bool) and _is_boolean(st.test):
+                other = None
+                if st.orelse and len(st.orelse) == 1 and isinstance(st.orelse[0], ast.Return):
+                    other, skip = st.orelse[0], 1
+                elif not st.orelse and isinstance(nxt, ast.Return):
+                    other, skip = nxt, 2
+                if other is not None and isinstance(other.value, ast.Constant) and isinstance(other.value.value, bool) \
+                        and other.value.value != st.body[0].value.value:
+                    val = st.test if st.body[0].value.value else ast.UnaryOp(op=ast.Not(), operand=st.test)
+                    cand = ast.copy_location(ast.Return(value=val), st)
+                    ast.fix_missing_locations(cand)
+                    out.append(cand)
+                    i += skip
+                    continue
+            out.append(st)
+            i += 1
+        return out
+
+    def generic_visit(self, node):
+        super().generic_visit(node)
+        for f in ("body", "orelse", "finalbody"):
+            b = getattr(node, f, None)
+            if isinstance(b, list) and b and isinstance(b[0], ast.stmt):
+                setattr(node, f, self._fix(b))
+        return node
+
+
+class BoolReturnExpand(ast.NodeTransformer):
+    """the inverse: `return <boolean expression>` -> `if <expr>: return True` + `return False`"""
+
+    def _fix(self, stmts):
+        out = []
+        for st in stmts:
+            if isinstance(st, ast.Return) and st.value is not None and _is_boolean(st.value) and not isinstance(st.value, ast.Constant):
+                i = ast.If(test=st.value, body=[ast.Return(value=ast.Constant(value=True))], orelse=[])
+                r = ast.Return(value=ast.Constant(value=False))
+                for n in (i, r):
+                    ast.copy_location(n, st)
+                    ast.fix_missing_locations(n)
+                out.extend([i, r])
+            else:
+                out.append(st)
+        return out
+
+    def generic_visit(self, node):
+        ast.NodeTransformer.generic_visit(self, node)
+        for f in ("body", "orelse", "finalbody"):
+            b = getattr(node, f, None)
+            if isinstance(b, list) and b and isinstance(b[0], ast.stmt):
+                setattr(node, f, self._fix(b))
+        return node
+
+
+class MemTuple(ast.NodeTransformer):
+    """`x in [a, b]` -> `x in (a, b)`; `list()` -> `[]`; `dict()` -> `{}`"""
+
+    def visit_Compare(self, node):
+        self.generic_visit(node)
+        if len(node.ops) == 1 and isinstance(node.ops[0], (ast.In, ast.NotIn)) and isinstance(node.comparators[0], ast.List):
+            node.comparators[0] = ast.copy_location(ast.Tuple(elts=node.comparators[0].elts, ctx=ast.Load()), node.comparators[0])
+        return node
+
+    def visit_Call(self, node):
+        self.generic_visit(node)
+        if isinstance(node.func, ast.Name) and not node.args and not node.keywords:
+            if node.func.id == "list":
+                return ast.copy_location(ast.List(elts=[], ctx=ast.Load()), node)
+            if node.func.id == "dict":
+                return ast.copy_location(ast.Dict(keys=[], values=[]), node)
+        return node
+
+
+class DictGet(ast.NodeTransformer):
+    """`d[k] if k in d else default` -> `d.get(k, default)` (d a plain name or attribute chain, k a constant)"""
+
+    def visit_IfExp(self, node):
+        self.generic_visit(node)
+        t = node.test
+        if isinstance(t, ast.Compare) and len(t.ops) == 1 and isinstance(t.ops[0], ast.In) and isinstance(t.left, ast.Constant) \
+                and isinstance(node.body, ast.Subscript) and ast.dump(node.body.value) == ast.dump(t.comparators[0]) \
+                and isinstance(node.body.slice, ast.Constant) and node.body.slice.value == t.left.value \
+                and isinstance(t.comparators[0], (ast.Name, ast.Attribute)):
+            args = [t.left] + ([] if (isinstance(node.orelse, ast.Constant) and node.orelse.value is None) else [node.orelse])
+            return ast.copy_location(ast.Call(func=ast.Attribute(value=t.comparators[0], attr="get", ctx=ast.Load()), args=args, keywords=[]), node)
+        return node
+
+
+TRANSFORMS = {"eqswap": EqSwap, "cmpflip": CmpFlip, "ifinvert": IfInvert, "notcmp": NotCmp, "augexpand": AugExpand, "annotate": Annotate, "fstring": FString, "methodorder": MethodOrder, "isimerge": IsinstanceMerge, "unelse": UnElse, "elseafter": ElseAfterReturn, "comp2loop": CompToLoop, "loopguard": LoopGuard, "loopnest": LoopNest, "boolreturn": BoolReturn, "boolexpand": BoolReturnExpand, "memtuple": MemTuple, "dictget": DictGet,
               "passpad": PassPad, "rename": Rename}
 
-SILENT_VARIANTS = ("eqswap", "cmpflip", "ifinvert", "notcmp", "augexpand", "passpad", "annotate", "fstring", "methodorder", "isimerge", "unelse", "elseafter", "comp2loop", "loopguard", "loopnest")
+SILENT_VARIANTS = ("eqswap", "cmpflip", "ifinvert", "notcmp", "augexpand", "passpad", "annotate", "fstring", "methodorder", "isimerge", "unelse", "elseafter", "comp2loop", "loopguard", "loopnest", "boolreturn", "boolexpand", "memtuple", "dictget", "rename")
